@@ -5,6 +5,7 @@ package vam
 import (
 	"io"
 	"log/slog"
+	"strings"
 
 	"github.com/vkngwrapper/arsenal/vam/internal/vulkan"
 	"github.com/vkngwrapper/core/v3/core1_0"
@@ -50,7 +51,7 @@ const (
 //	heap 0: 2048 bytes (preferred block 256)   type 0: DEVICE_LOCAL
 //	heap 1: 8192 bytes (preferred block 1024)  type 1: HOST_VISIBLE|HOST_COHERENT, type 2: HOST_VISIBLE|HOST_CACHED
 //	variant bit 0: bufferImageGranularity 1 / 1024      bit 1: nonCoherentAtomSize 1 / 64
-//	variant bit 2: heap size limits {1024, 4096}        bit 3: maxMemoryAllocationCount 3
+//	variant bit 2: heap size limits {512, 1024}         bit 3: maxMemoryAllocationCount 2
 //	variant bit 4: a fourth memory type with DEVICE_COHERENT_AMD (excluded: the extension is not enabled)
 func newWorld(prop int, variant int) *vWorld {
 	w := &vWorld{prop: prop, gran: 1, atom: 1, maxAllocs: 4096}
@@ -69,14 +70,14 @@ func newWorld(prop int, variant int) *vWorld {
 		types = append(types, core1_0.MemoryType{PropertyFlags: core1_0.MemoryPropertyDeviceLocal | core1_0.MemoryPropertyFlags(fCoherentAMD), HeapIndex: 0})
 	}
 	if variant&8 != 0 {
-		w.maxAllocs = 3
+		w.maxAllocs = 2
 	}
 	w.dev = newSim(simCfg{types: types, heaps: []core1_0.MemoryHeap{{Size: 2048}, {Size: 8192}},
 		granularity: w.gran, atom: w.atom, maxAllocs: w.maxAllocs})
 	opts := CreateOptions{}
 	if variant&4 != 0 {
-		w.heapLimits = []int{1024, 4096}
-		opts.HeapSizeLimits = []int{1024, 4096}
+		w.heapLimits = []int{512, 1024}
+		opts.HeapSizeLimits = []int{512, 1024}
 	} else {
 		w.heapLimits = []int{0, 0}
 	}
@@ -84,6 +85,7 @@ func newWorld(prop int, variant int) *vWorld {
 	al, err := New(logger, w.dev, w.dev.pd, opts)
 	verifAssume(err == nil)
 	w.al = al
+	verifDebugInfo = func() string { return strings.Join(w.dev.vu, "; ") }
 	return w
 }
 
@@ -426,6 +428,10 @@ func pname(p int) string {
 		return "20"
 	case 8:
 		return "08"
+	case 7:
+		return "07"
+	case 15:
+		return "15"
 	}
 	return "??"
 }
@@ -481,6 +487,10 @@ func (w *vWorld) createPool(variant int) *Pool {
 
 // history: K operations chosen from the vocabulary, oracle after each.
 func (w *vWorld) history(K int, variants []int, withPools bool, multi bool) {
+	w.historyPV(K, variants, withPools, multi, []int{0, 1, 2, 3})
+}
+
+func (w *vWorld) historyPV(K int, variants []int, withPools bool, multi bool, pvs []int) {
 	for step := 0; step < K; step++ {
 		nops := 1
 		if len(w.live) > 0 {
@@ -507,7 +517,7 @@ func (w *vWorld) history(K int, variants []int, withPools bool, multi bool) {
 			}
 			w.free(verifChoice("victim", len(w.live)))
 		case 2:
-			w.createPool(verifChoice("poolVariant", len(poolVariants)))
+			w.createPool(pvs[verifChoice("poolVariant", len(pvs))])
 		}
 		w.check("after-step")
 	}
